@@ -449,7 +449,7 @@ class Net:
         return v
 
     # ---------------------------------------------------------------- hosts
-    async def add_host(self, name: str, addr: str, addr6: Optional[str] = None, layout: str = 'single') -> Host:
+    async def add_host(self, name: str, addr: str, addr6: Optional[str] = None, layout: str = 'single', wait_start: bool = True) -> Host:
         h = Host(self, name, addr, addr6, layout)
         self.hosts[name] = h
         self._creating = h
@@ -458,7 +458,8 @@ class Net:
             h.aiozc = AsyncZeroconf(ip_version=IPVersion.All if layout == 'dual' else IPVersion.V4Only)
         finally:
             self._creating = None
-        await h.zc.async_wait_for_start()
+        if wait_start:
+            await h.zc.async_wait_for_start()
         self.emit(name, 'host_up', addr=addr, layout=layout)
         return h
 
